@@ -90,7 +90,10 @@ def run(ctx):
                       "X 2 %d 2 2 4" % (400 if not thorough else 5000), "X 6 %d 0 8 1024" % (300 if not thorough else 4000)]
             race = ["O"] * (3 if not thorough else 30)
             backlog = ["Y 200 1", "Y 300 3", "Y 50 2"] * (1 if not thorough else 10)
-            lines += stress + race + backlog
+            # shutdown() / stop() starting while submitters are inside enqueue / enqueueWithResult / tryEnqueue
+            zt = 25 if not thorough else 300
+            shut = ["Z %d 6 1 1 shutdown" % zt, "Z %d 6 1 1 stop" % zt, "Z %d 4 0 3 shutdown" % zt, "Z %d 8 2 2 stop" % zt]
+            lines += stress + race + backlog + shut
             li, lm, _ = vlib.run_pair(ctx, impl_exe, model_exe, lines, "c09h", timeout=1800)
             nontrivial = 0
             disagree = 0
@@ -110,6 +113,13 @@ def run(ctx):
                     if ri != rm:
                         v.property_failure("destructor-returns-before-tasks-finished", "the pool was destroyed with queued tasks: %s "
                                            "(accepted tasks that had not run when the destructor returned / ran afterwards)" % ri, line, ri)
+                    else:
+                        nontrivial += 1
+                    continue
+                if line.startswith("Z "):
+                    if ri != rm:
+                        v.property_failure("shutdown-racing-submitters", "submitters racing %s(): %s (an accepted task never ran / its future "
+                                           "is not ready / a task started after the call returned / tasks left queued)" % (line.split()[5], ri), line, ri)
                     else:
                         nontrivial += 1
                     continue
